@@ -208,8 +208,23 @@ impl Alphabet {
     }
 }
 
+/// Property-specific probes to run in every visited state.
+#[derive(Clone, Copy, Debug, PartialEq, Eq)]
+pub enum Probe {
+    Iterators,
+    Removal { max_subset_len: usize },
+    Capacity,
+    TryReserve,
+    Entry,
+    ManyMut,
+    Leaks,
+    Release,
+    CloneEq,
+}
+
 #[derive(Clone, Debug)]
 pub struct MapCfg {
+    pub probes: Vec<Probe>,
     pub plan: Plan,
     pub universe: u8,
     pub reduce: bool,
@@ -220,10 +235,13 @@ pub struct MapCfg {
     pub max_live: Option<usize>,
     /// check allocation_size() against the ledger in every state
     pub check_alloc_size: bool,
+    /// C13: bucket count must never exceed this
+    pub bucket_bound: Option<usize>,
 }
 impl MapCfg {
     pub fn new(plan: Plan, universe: u8) -> Self {
         MapCfg {
+            probes: vec![],
             plan,
             universe,
             reduce: true,
@@ -231,6 +249,7 @@ impl MapCfg {
             max_buckets: 64,
             max_live: None,
             check_alloc_size: true,
+            bucket_bound: None,
         }
     }
     /// class of each key id: index of its hash among the plan's distinct hashes
@@ -274,6 +293,26 @@ pub struct MapSut<K: KeyT, V: ValT> {
     /// auxiliary collection of the operation in progress (clone target), kept
     /// here so that it can be examined after a panic
     pub aux: Option<Map<K, V>>,
+    /// ledger baselines at creation (a nested system shares the thread's ledgers)
+    pub base: Baseline,
+}
+
+#[derive(Clone, Copy, Debug)]
+pub struct Baseline {
+    pub live_elems: usize,
+    pub live_blocks: usize,
+    pub live_bytes: usize,
+    pub block_idx: usize,
+}
+impl Baseline {
+    pub fn take() -> Self {
+        Baseline {
+            live_elems: env::reg_live_count(),
+            live_blocks: env::live_block_count(),
+            live_bytes: env::live_bytes(),
+            block_idx: env::block_count(),
+        }
+    }
 }
 
 impl<K: KeyT, V: ValT> MapSut<K, V> {
@@ -281,9 +320,10 @@ impl<K: KeyT, V: ValT> MapSut<K, V> {
         Self::with_map(cfg, Map::<K, V>::default())
     }
     pub fn with_map(cfg: &MapCfg, map: Map<K, V>) -> Self {
+        let base = Baseline::take();
         let class_of = cfg.class_of();
         let probe_keys = (0..cfg.universe).map(|id| K::make(id, PROBE_TOK)).collect();
-        MapSut { map, model: Vec::new(), next_tok: 1, probe_keys, class_of, aux: None }
+        MapSut { map, model: Vec::new(), next_tok: 1, probe_keys, class_of, aux: None, base }
     }
     pub fn tok(&mut self) -> u32 {
         let t = self.next_tok;
@@ -364,7 +404,7 @@ impl<K: KeyT, V: ValT> MapSut<K, V> {
         }
         if check_alloc_size {
             let a = self.map.allocation_size();
-            let l = env::live_bytes();
+            let l = env::live_bytes() - self.base.live_bytes;
             if a != l {
                 return Err(format!("allocation_size() = {a} but the allocator ledger holds {l} bytes"));
             }
@@ -374,32 +414,38 @@ impl<K: KeyT, V: ValT> MapSut<K, V> {
 
     /// Drop the map and check the ledgers.
     pub fn finish(self) -> Result<(), String> {
-        let MapSut { map, probe_keys, aux, .. } = self;
+        let MapSut { map, probe_keys, aux, base, .. } = self;
         drop(aux);
         drop(map);
         drop(probe_keys);
-        end_of_run_checks()
+        end_of_run_checks(&base)
     }
 }
 
 /// After everything has been dropped: registry, allocator ledger, canaries.
-pub fn end_of_run_checks() -> Result<(), String> {
+pub fn end_of_run_checks(base: &Baseline) -> Result<(), String> {
     let errs = env::take_errors();
     if !errs.is_empty() {
         return Err(errs.join("; "));
     }
     let live = env::reg_live_count();
-    if live != 0 {
+    if live != base.live_elems {
         return Err(format!(
-            "leak: {live} element(s) never dropped after the collection was dropped (serials {:?})",
-            env::reg_live_list().iter().take(8).collect::<Vec<_>>()
+            "leak: {} element(s) never dropped after the collection was dropped (live serials {:?})",
+            live as isize - base.live_elems as isize,
+            env::reg_live_list().iter().rev().take(8).collect::<Vec<_>>()
         ));
     }
-    let blocks = env::live_blocks();
-    if !blocks.is_empty() {
-        return Err(format!("leak: {} allocation(s) never returned: sizes {:?}", blocks.len(), blocks.iter().map(|b| b.1).collect::<Vec<_>>()));
+    let nb = env::live_block_count();
+    if nb != base.live_blocks {
+        let blocks = env::live_blocks();
+        return Err(format!(
+            "leak: {} allocation(s) never returned: live block sizes {:?}",
+            nb as isize - base.live_blocks as isize,
+            blocks.iter().map(|b| b.1).collect::<Vec<_>>()
+        ));
     }
-    env::alloc_check()
+    env::alloc_check_from(base.block_idx)
 }
 
 macro_rules! chk {
@@ -1059,6 +1105,10 @@ impl<K: KeyT, V: ValT> Harness for MapHarness<K, V> {
         MapSut::new(&self.cfg)
     }
 
+    fn init_nested(&self) -> MapSut<K, V> {
+        MapSut::new(&self.cfg)
+    }
+
     fn ops(&self, sut: &MapSut<K, V>) -> Vec<MapOp> {
         let a = &self.cfg.alphabet;
         let mut v = Vec::new();
@@ -1140,6 +1190,18 @@ impl<K: KeyT, V: ValT> Harness for MapHarness<K, V> {
     }
 
     fn check(&self, sut: &mut MapSut<K, V>) -> Result<(), String> {
+        if let Some(b) = self.cfg.bucket_bound {
+            let d = sut.map.verif_dump();
+            if !d.is_singleton && d.bucket_mask + 1 > b {
+                return Err(format!(
+                    "churn with at most {} live elements grew the table to {} buckets ({} bytes), above the bound of {} buckets",
+                    self.cfg.max_live.unwrap_or(0),
+                    d.bucket_mask + 1,
+                    sut.map.allocation_size(),
+                    b
+                ));
+            }
+        }
         sut.check_all(self.cfg.universe, true, self.cfg.check_alloc_size)
     }
 
@@ -1151,6 +1213,20 @@ impl<K: KeyT, V: ValT> Harness for MapHarness<K, V> {
 
     fn finish(&self, sut: MapSut<K, V>) -> Result<(), String> {
         sut.finish()
+    }
+
+    fn probes(&self, rebuild: &dyn Fn() -> MapSut<K, V>, sut: &mut MapSut<K, V>, stats: &Stats) -> Result<(), String> {
+        use crate::mapprobes as mp;
+        for p in &self.cfg.probes {
+            match *p {
+                Probe::Iterators => mp::probe_iterators(rebuild, sut, stats)?,
+                Probe::Removal { max_subset_len } => mp::probe_removal(rebuild, sut, self.cfg.universe, max_subset_len, stats)?,
+                Probe::Capacity => mp::probe_capacity(rebuild, sut, self.cfg.universe, stats)?,
+                Probe::TryReserve => mp::probe_try_reserve(rebuild, sut, self.cfg.universe, stats)?,
+                _ => {}
+            }
+        }
+        Ok(())
     }
 }
 
